@@ -428,8 +428,8 @@ core.register("C13", [
     Facet("import", import_cases, check_import, n_quick=300, shards_quick=4,
           rule="tket circuits with measurements into arbitrary bits: the "
           "import's mixed evaluation equals O7's distribution over all bits"),
-    Facet("import_state", state_cases, check_import_state, n_quick=200,
-          shards_quick=2, rule="measurement-free tket circuits: imported "
+    Facet("import_state", state_cases, check_import_state, n_quick=800,
+          shards_quick=4, rule="measurement-free tket circuits: imported "
           "pure state vs tket's get_statevector()"),
 ], selftests=[selftest], rule=RULE, assumptions=[
     "O7 uses tket's own gate unitaries and unit ordering",
